@@ -105,7 +105,7 @@ class ExitStack:
     def pop_all(self: Self) -> Self: ...
     def push(self, exit: SE) -> SE: ...
     def callback(
-        self, callback: Callable[P, R], *args: P.args, **kwargs: P.kwargs
+        self, callback: Callable[P, R], /, *args: P.args, **kwargs: P.kwargs
     ) -> Callable[P, R]: ...
     async def enter_context(self, cm: AnyContextManager[T]) -> T: ...
     async def aclose(self) -> None: ...
